@@ -147,6 +147,9 @@ def main(tier):
     chk.rule("UNDO", "every table written by scanning is undone, cascaded or kept by design", floor=15)
     chk.rule("IDEM", "every INSERT on the scan path is idempotent", floor=15)
     chk.rule("SPLICE", "balance / unspent queries splice the spent and unexpired predicates", floor=6)
+    chk.rule("BOUNDARY", "the rewind splits heights consistently: rows above the height go, rows at "
+             "or below it stay", floor=4)
+    chk.rule("PRUNE", "the nullifier map is pruned relative to the fully-scanned height", floor=2)
     chk.rule("control", "positive controls", floor=2)
 
     ps_rules.ps1(chk, FILES)
@@ -284,6 +287,9 @@ def main(tier):
     else:
         chk.fail("SPLICE", "tx_unexpired_condition/missing", "tx_unexpired_condition not found")
 
+    boundary(chk, w, fx, ts[0])
+    prune(chk, w)
+
     # controls
     if ("INSERT", "blocks") in scan_eff and ("DELETE", "blocks") in trunc_eff:
         chk.ok("control", "effect sets see INSERT blocks on the scan path and DELETE blocks on truncation")
@@ -294,6 +300,75 @@ def main(tier):
     else:
         chk.fail("control", "shardstore-edge", "tree shard writes are not seen on the scan path")
     chk.finish()
+
+
+HEIGHT_CMP = re.compile(r"([A-Za-z_\.]*height[A-Za-z_]*)\s*(>=|<=|<>|!=|>|<|=)\s*(:\w+|\?\d*)")
+
+
+def boundary(chk, w, fx, f):
+    """A rewind to height h keeps block h.  Every UPDATE/DELETE the truncation itself issues
+    compares height columns with its bound height in one of two ways: `col > :h` (rolled back) or
+    `col <= :h` (kept).  `>=` or `<` in one statement contradicts the others: it moves block h to
+    the other side for that table only."""
+    n = 0
+    ordn = {}
+    for bb, k, t, text in fx.sites.get(f.id, ()):
+        if k not in ("W", "P"):
+            continue
+        for stmt in text.split("\n;\n"):
+            m0 = re.match(r"\s*(UPDATE|DELETE)\b", stmt)
+            if not m0:
+                continue
+            tbl = (re.search(r"(?:UPDATE|DELETE\s+FROM)\s+([A-Za-z_]+)", stmt) or [None, "?"])[1]
+            for m in HEIGHT_CMP.finditer(stmt):
+                n += 1
+                k0 = "%s/%s" % (tbl, m.group(1))
+                ordn[k0] = ordn.get(k0, 0) + 1
+                if m.group(2) in (">", "<="):
+                    chk.ok("BOUNDARY", "%s %s: `%s`" % (m0.group(1), tbl, m.group(0)), sample=True)
+                else:
+                    chk.fail("BOUNDARY", "%s#%d" % (k0, ordn[k0]), "the rewind's %s of %s tests `%s`; "
+                             "every other statement of the rewind removes rows with height > h and "
+                             "keeps rows with height <= h, so this one treats the block AT the rewind "
+                             "height differently" % (m0.group(1), tbl, m.group(0)), t.span.loc())
+    return n
+
+
+def prune(chk, w):
+    """entries of the nullifier map may be dropped only below the FULLY scanned height: above it
+    an unscanned block may still hold the note a tracked nullifier spends"""
+    callers = []
+    for f in w.fns.values():
+        if "::tests::" in f.p or "::testing" in f.p:
+            continue
+        for bb, t in f.body.calls():
+            if t.callee.indirect is None and t.callee.target_p().endswith("::wallet::prune_nullifier_map"):
+                callers.append((f, t))
+    if not callers:
+        chk.fail("PRUNE", "missing", "no caller of prune_nullifier_map found")
+        return
+    import defuse
+    for f, t in callers:
+        du = defuse.DefUse(f.body)
+        o = defuse.show(du.origin(t.args[1]))
+        srcs = set(re.findall(r"\b(block_\w*scanned|chain_tip\w*|block_height_extrema)\(", o))
+        if srcs == {"block_fully_scanned"} and re.search(r"saturating_sub\(|Sub ", o):
+            chk.ok("PRUNE", "%s prunes below block_fully_scanned() - depth" % f.p.rsplit("::", 1)[-1],
+                   sample=True)
+        else:
+            chk.fail("PRUNE", f.p, "%s prunes the nullifier map below %s: only heights below the fully "
+                     "scanned height minus the pruning depth are safe to forget"
+                     % (f.p.rsplit("::", 1)[-1], o[:120]), t.span.loc())
+    # the pruning statement removes rows strictly below the height it is given
+    ps = [f for f in w.fns.values() if f.p.endswith("::wallet::prune_nullifier_map")]
+    src = zf.fn_source(extract.REPO, ps[0]) if ps else ""
+    m = HEIGHT_CMP.search(src)
+    if m and m.group(2) == "<" and "DELETE FROM tx_locator_map" in src:
+        chk.ok("PRUNE", "prune_nullifier_map deletes rows with `%s`" % m.group(0))
+    else:
+        chk.fail("PRUNE", "statement", "prune_nullifier_map's statement is not `DELETE FROM "
+                 "tx_locator_map WHERE block_height < :h` (found %s)" % (m.group(0) if m else None),
+                 ps[0].span.loc() if ps else None)
 
 
 def insert_guard(w, fx, E, f, table, depth=0):
